@@ -380,6 +380,8 @@ def _check_one(i: int):
     from .core import _has_quantifier
     ob = _OBLS[i]
     t0 = time.time()
+    if ob.meta.get('trivial'):
+        return i, 'unsat', None, 0.0, 'simplifier (goal is syntactically true on this path)', None
     ground_ax = [a for a in _AXIOMS if not z3.is_quantifier(a)]
     quant_ax = [a for a in _AXIOMS if z3.is_quantifier(a)]
     solver = 'z3'
@@ -402,6 +404,17 @@ def _check_one(i: int):
             return i, ('sat' if r0 == z3.sat else 'unknown'), None, time.time() - t0, 'z3', None
         # the quantified part is not probed (z3 was seen to block on such satisfiable queries regardless of its timeout)
         return i, ('sat*' if r0 == z3.sat else 'unknown'), None, time.time() - t0, 'z3 (quantifier-free part only)', None
+    if z3.is_false(z3.simplify(ob.goal)):
+        # the goal is syntactically false on this path (e.g. a ghost counter that was not advanced): the obligation holds only if the
+        # path is infeasible - one feasibility query decides what can be decided, the expensive phases cannot add anything
+        sf, rf = _solve(ob, ground_ax, _ground_injectivity(list(ob.pc)) if quant_ax else [], min(_TIMEOUT_MS, 8000))
+        mtxt = None
+        if rf == z3.sat:
+            try:
+                mtxt = _model_to_text(sf.model())
+            except Exception:
+                mtxt = None
+        return i, ('unsat' if rf == z3.unsat else 'sat' if rf == z3.sat else 'unknown'), mtxt, time.time() - t0, 'z3 (goal is false: feasibility of the path)', (None if rf != z3.unknown else sf.reason_unknown())
     # phase 0: only the quantifier-free part of the path condition (fewer assumptions: unsat is sound) - most obligations need no more
     qf_pc = [p for p in ob.pc if not _has_quantifier(p)]
     if len(qf_pc) < len(ob.pc):
